@@ -62,6 +62,12 @@ func init() {
 	register("C08", "", ruleLocks(plannerPkg+".CachedPlanner"))
 	register("C19", "", ruleMultiplicity, ruleUploadNumbering)
 	register("C12", "", ruleQueryHash)
+	register("C01", "", ruleOperationType, ruleForwardedVariables)
+	register("C07", "", ruleChannels)
+	register("C08", "", ruleChannels)
+	register("C09", "", ruleBodyClosed, ruleAnswerDecoder, ruleErrStructure)
+	register("C13", "", ruleDownstreamErrorPath)
+	register("C15", "", ruleASTWritesIn("introspection"), ruleEnumTables, detectors[0])
 	for _, c := range []string{"C13", "C09", "C08", "C11"} {
 		register(c, "", ruleFanoutOwner)
 	}
